@@ -256,5 +256,8 @@ _lex('prio2', [Term('WORD', ('re', '[a-z]+'), priority=2), Term('IF', 'if'), Ter
 _lex('ign_inline', [Term('INDENT', ('re', r'\n +')), Term('DASH2', '--'), Term('W', ('re', '[a-z]+'))], ignore=[r'/\s+/', '"-"'])
 # a verbose-flag regexp: its source text is longer than what it matches (width must be that of the regexp with its flags)
 _lex('xflag', [Term('ABC', ('re', ' a b c '), flags='x'), Term('ABCD', 'abcd'), Term('D', 'd'), Term('AB', 'ab')])
+# a case-insensitive keyword next to an identifier regexp that carries another flag (and is not case-insensitive): the keyword is matched
+# by the regexp only in lower case, so it must stay a terminal of its own
+_lex('ciflag', [Term('ON', 'on', flags='i'), Term('NAME', ('re', '[a-z]+'), flags='s'), Term('SP', ' ')], ignore=['SP'])
 _lex('eqw', [Term('X', ('re', '[ab]')), Term('Y', ('re', '[bc]')), Term('Z', 'b'), Term('W', ('re', '[cd][cd]')), Term('V', 'cd')])
 _lex('ci', [Term('NAME', ('re', '[a-zA-Z]+')), Term('SEL', 'se', flags='i'), Term('KW', 'Se'), Term('NUM', ('re', '[0-9]')), Term('SP', ' ')], ignore=['SP'])
